@@ -74,6 +74,12 @@ def mk_tts(coords, shape2d, data, weights, block_shape, test_size, seed, kind):
             "op": f"tts {C.enc(coords)} {C.enc(data)} {C.enc(weights)} {C.enc(sp)}"}
 
 
+def mk_score(coords, shape2d, data, weights, scoring, est, kind):
+    """gridder.score / score_estimator called directly (fit on the same rows, imperfect fit), arrays in `shape2d`."""
+    return {"fn": "score", "kind": kind, "args": [coords, shape2d, data, weights, scoring, est], "op": "splinecv_select [ [ 0 ] ]",
+            "key": repr((coords[0][:3], shape2d, scoring, est, weights is None))}
+
+
 def dataset(rng, maxpts, ncomp=None, extra=False):
     reg, es, ns = B.cloud(rng, maxpts)
     while len(es) < 8:
@@ -97,6 +103,10 @@ def corpus():
     cs.append(mk_cv(coords, shape2d, data[:1], None, ["kfold", 4, True, 3], None, "trend", "corpus-trend"))
     cs.append(mk_cv(coords, shape2d, data, weights, ["blockkfold", 2, True, 1, [2, 2]], "r2", "moment", "corpus-block"))
     cs.append(mk_tts(coords, shape2d, data, weights, None, 0.25, 5, "corpus-tts"))
+    n_ = len(coords[0])
+    for sc in SCORERS:
+        cs.append(mk_score(coords[:2], [2, n_ // 2] if n_ % 2 == 0 else [n_], data[:1], weights[:1] if weights else None, sc, "trend", "corpus-score-2d"))
+    cs.append(mk_score(coords[:2], [2, n_ // 2] if n_ % 2 == 0 else [n_], data[:2], None, None, "vector", "corpus-score-vector-2d"))
     cs.append(mk_tts(coords, shape2d, data, weights, [2, 2], 0.5, 5, "corpus-tts-block"))
     cs.append({"fn": "splinecv", "kind": "corpus-splinecv", "args": [coords[:2], data[0], None, [1e-3, 1e-1, 1e1], 3], "op": "splinecv_select [ [ 0 ] ]"})
     return cs
@@ -110,6 +120,20 @@ def generate(rng, tier):
         u = rng.random()
         coords, shape2d, data, weights = dataset(rng, maxpts, extra=rng.random() < 0.2)
         npts = len(coords[0])
+        if u < 0.12:
+            est = rng.choice(["trend", "trend", "chain", "vector"])
+            n_ = len(coords[0])
+            sh = [2, n_ // 2] if n_ % 2 == 0 else ([3, n_ // 3] if n_ % 3 == 0 else [n_])
+            d_, w_ = data, weights
+            if est == "vector":
+                if len(d_) < 2:
+                    d_ = [d_[0], [v * 0.5 - 1.0 for v in d_[0]][::-1]]
+                    w_ = None if w_ is None else [w_[0], w_[0][::-1]]
+                d_, w_ = d_[:2], (w_[:2] if w_ else None)
+            else:
+                d_, w_ = d_[:1], (w_[:1] if w_ else None)
+            cs.append(mk_score(coords[:2], sh, d_, w_, rng.choice(SCORERS), est, "score-" + est + ("-2d" if len(sh) == 2 else "")))
+            continue
         if u < 0.75:
             k = rng.random()
             seed = rng.randint(0, 10**6)
@@ -148,6 +172,16 @@ def _arrays(coords, shape2d, data, weights, key=""):
     ws = None if weights is None else tuple(C.mkarr(w, shape2d, f"{key}w{i}") for i, w in enumerate(weights))
     for a in cs + ds + (ws or ()):
         a.setflags(write=False)
+    import zlib
+    if len(shape2d) == 1 and zlib.crc32(("series" + key).encode()) % 4 == 0:
+        # columns of a DataFrame that was sorted / shuffled without reset_index: same VALUES in the same ORDER, but the
+        # index labels are a permutation of 0..n-1 (positional and label-based indexing differ)
+        import pandas as pd
+        n = shape2d[0]
+        idx = [(7 * i + 3) % n for i in range(n)] if n % 7 else list(range(n - 1, -1, -1))
+        ser = lambda x: pd.Series(np.asarray(x).copy(), index=idx)  # noqa: E731
+        cs, ds = tuple(ser(c) for c in cs), tuple(ser(d) for d in ds)
+        ws = None if ws is None else tuple(ser(w) for w in ws)
     d_arg = ds[0] if len(ds) == 1 else ds
     w_arg = None if ws is None else (ws[0] if len(ws) == 1 else ws)
     return cs, d_arg, w_arg
@@ -216,6 +250,20 @@ def impl(case):
         if est in REAL:
             return ["trend", r]
         return [None if v != v else v for v in r]
+    if fn == "score":
+        coords, shape2d, data, weights, scoring, est = a
+        cs, d_arg, w_arg = _arrays(coords, shape2d, data, weights, case["key"][-60:] + "2d")
+
+        def run_score():
+            with warnings.catch_warnings():
+                warnings.simplefilter("ignore")
+                g = mk_est(est).fit(cs, d_arg, w_arg)
+                if scoring is None:
+                    return float(g.score(cs, d_arg, w_arg))
+                from verde.base.utils import score_estimator
+                return float(score_estimator(scoring, g, cs, d_arg, weights=w_arg))
+        r = C.call(run_score)
+        return r if C.is_err(r) else ["score", r]
     if fn == "tts":
         coords, shape2d, data, weights, block_shape, test_size, seed = a
         cs, d_arg, w_arg = _arrays(coords, shape2d, data, weights, case["op"][-60:])
@@ -259,7 +307,7 @@ def _splinecv(a):
 
 def compare(case, io, mo):
     fn = case["fn"]
-    if fn == "splinecv" or (fn == "cv_score" and case["args"][6] in REAL):
+    if fn in ("splinecv", "score") or (fn == "cv_score" and case["args"][6] in REAL):
         return "ok"      # no model counterpart: decided by the oracle on the implementation
     if fn == "cv_score":
         e = C.err_compare(io, mo)
@@ -290,6 +338,29 @@ def oracle(case, io):
             return f"SplineCV chose damping {r['chosen']} but the highest mean score belongs to {r['expected']}"
         if r["pred_diff"] > 1e-6 * r["scale"]:
             return "SplineCV does not predict like a Spline with the selected parameters fitted to all the data"
+        return None
+    if fn == "score":
+        coords, shape2d, data, weights, scoring, est = a
+        if C.is_err(io):
+            return "score failed: " + io[1]
+        from sklearn.metrics import mean_absolute_error, mean_squared_error, r2_score
+        ncomp = 2 if est == "vector" else 1
+        E, N = np.array(coords[0]), np.array(coords[1])
+        D = tuple(np.array(data[c]) for c in range(ncomp))
+        W = None if weights is None else tuple(np.array(weights[c]) for c in range(ncomp))
+        with warnings.catch_warnings():
+            warnings.simplefilter("ignore")
+            t = mk_est(est).fit((E, N), D if ncomp > 1 else D[0], None if W is None else (W if ncomp > 1 else W[0]))
+            pred = t.predict((E, N))
+        pred = pred if ncomp > 1 else (pred,)
+        metric = {None: lambda y, p, w: r2_score(y, p, sample_weight=w), "r2": lambda y, p, w: r2_score(y, p, sample_weight=w),
+                  "neg_mean_squared_error": lambda y, p, w: -mean_squared_error(y, p, sample_weight=w),
+                  "neg_mean_absolute_error": lambda y, p, w: -mean_absolute_error(y, p, sample_weight=w)}[scoring]
+        exp = float(np.mean([metric(D[c], pred[c], None if W is None else W[c]) for c in range(ncomp)]))
+        got = io[1]
+        if not (abs(got - exp) <= 1e-7 * max(1.0, abs(exp))):
+            return (f"score {got} of arrays of shape {shape2d} is not the {scoring or 'r2'} over ALL points, averaged over components and "
+                    f"weighted by the weights ({exp})")
         return None
     if fn == "cv_score":
         coords, shape2d, data, weights, cvspec, scoring, est = a
@@ -353,6 +424,8 @@ def oracle(case, io):
 def nontrivial(case, io):
     if C.is_err(io):
         return False
+    if case["fn"] == "score":
+        return True
     if case["fn"] == "cv_score":
         v = io[1] if case["args"][6] in REAL else io
         return len(v) >= 2
